@@ -6,7 +6,7 @@ open TinyVerif TinyVerif.Thread
 drv_c05 — line protocol (C05 and C06 share it):
   layout <vSize> <vAlign>
       -> `layout <size> <align> <valueOffset> futex=<o> sz=<o> al=<o>` | `layout-panic`
-  thr <checkClone> <mmapCleanup> <initWord> <joinExpect> <dropExpect> <setTidRet> <setTidPanic> <loadSync> <spurious> <dropValH> <dropValT> : <inst> <event> ; ...
+  thr <checkClone> <mmapCleanup> <initWord> <joinExpect> <dropExpect> <setTidRet> <setTidPanic> <loadSync> <spurious> <dropValH> <dropValT> <recheck> : <inst> <event> ; ...
       replays an observed history (events of all instances in observation order) on the model:
       -> `accept n=<events> joins=<inst>:<some v|none>,.. complete=<b> bad=<b> raced=<b> heap=<live blocks> maps=<live mappings> leaked=<panicked closures> frees=<inst>:<tsm>/<tls>/<stack>/<box>,..`
       -> `reject <k> inst=<i> ev=<event> h=<pc> t=<pc> ...` when the model's party would not take that step there
@@ -92,13 +92,13 @@ def stepLine (_ : Unit) (line : String) : Unit × String :=
       | some L, some v, some f, some o1, some o2 => ((), s!"layout {L.size} {L.align} {v} futex={f} sz={o1} al={o2}")
       | _, _, _, _, _ => ((), "layout-panic")
     | _, _ => ((), "bad-op")
-  | "thr" :: a1 :: a2 :: a3 :: a4 :: a5 :: a6 :: a7 :: a8 :: a9 :: a10 :: a11 :: ":" :: rest =>
-    match bit a1, bit a2, a3.toNat?, a4.toNat?, a5.toNat?, bit a6, bit a7, bit a8, bit a9, bit a10, bit a11 with
-    | some b1, some b2, some n3, some n4, some n5, some b6, some b7, some b8, some b9, some b10, some b11 =>
-      let c : Cfg := ⟨b1, b2, n3, n4, n5, b6, b7, b10, b11, b8, b9⟩
+  | "thr" :: a1 :: a2 :: a3 :: a4 :: a5 :: a6 :: a7 :: a8 :: a9 :: a10 :: a11 :: a12 :: ":" :: rest =>
+    match bit a1, bit a2, a3.toNat?, a4.toNat?, a5.toNat?, bit a6, bit a7, bit a8, bit a9, bit a10, bit a11, bit a12 with
+    | some b1, some b2, some n3, some n4, some n5, some b6, some b7, some b8, some b9, some b10, some b11, some b12 =>
+      let c : Cfg := ⟨b1, b2, n3, n4, n5, b6, b7, b10, b11, b12, b8, b9⟩
       let evs := (splitTok ";" rest).filter (· ≠ [])
       ((), replay c St.init 0 [] evs)
-    | _, _, _, _, _, _, _, _, _, _, _ => ((), "bad-op")
+    | _, _, _, _, _, _, _, _, _, _, _, _ => ((), "bad-op")
   | _ => ((), "bad-op")
 
 def main : IO Unit := Drv.run stepLine ()
